@@ -332,10 +332,10 @@ func c10(r *mon.Run) {
 		gen.MultiHash(keyA("x"), []*gen.Expr{gen.Field("n")}), gen.Or(gen.Field("n"), gen.Field("s")), gen.Not(gen.Field("n")), gen.LitJSON("1"), gen.Raw("r"), gen.Chain(gen.Field("a"), gen.StListStar(), gen.StField("k")),
 		gen.Cmp("<", gen.Field("n"), gen.LitJSON("2")), gen.Pipe(gen.Field("a"), gen.Chain(nil, gen.StIndex(0))), gen.Func("sort_by", gen.Field("a"), gen.ExpRef(gen.Current())), gen.Chain(gen.Field("a"), gen.StFilter(gen.Current())),
 		gen.Chain(gen.Field("a"), gen.StSliceS("1", "", "")), gen.Func("abs", gen.Raw("x")), gen.Chain(gen.Field("o"), gen.StStar())}
-	erw := mon.Workload{Name: "expression-references-as-arguments", N: len(njs) * len(bodies) * 2,
+	erw := mon.Workload{Name: "expression-references-as-arguments", N: len(njs) * len(bodies) * 6,
 		Do: func(i int, t *mon.Tally) {
-			c := njs[i/2/len(bodies)]
-			body := bodies[i/2%len(bodies)]
+			c := njs[i/6/len(bodies)]
+			body := bodies[i/6%len(bodies)]
 			sg := ref.Signatures[c.fn]
 			args := make([]*gen.Expr, c.n)
 			for p := range args {
@@ -346,6 +346,32 @@ func c10(r *mon.Run) {
 				args[p] = valid(d)
 			}
 			args[c.pos] = gen.ExpRef(body)
+			if i%6 >= 4 { // the other arguments produced by calls (a call pattern that is recognised and answered directly must still check them all)
+				for p := range args {
+					if p == c.pos {
+						continue
+					}
+					d := sg.Params[len(sg.Params)-1]
+					if p < len(sg.Params) {
+						d = sg.Params[p]
+					}
+					switch d[0] {
+					case "array", "array[number]":
+						args[p] = gen.Func("keys", gen.Field("o"))
+						if d[0] == "array[number]" {
+							args[p] = gen.Func("values", gen.Field("o"))
+						}
+					case "array[string]":
+						args[p] = gen.Func("keys", gen.Field("o"))
+					case "object":
+						args[p] = gen.Func("merge", gen.Field("o"), gen.Field("o"))
+					case "string":
+						args[p] = gen.Func("to_string", gen.Field("n"))
+					case "number":
+						args[p] = gen.Func("length", gen.Field("a"))
+					}
+				}
+			}
 			var tree *gen.Expr = gen.Func(c.fn, args...)
 			row := map[string]interface{}{"n": float64(1), "s": "a", "a": []interface{}{float64(1), float64(2)}, "as": []interface{}{"a"}, "o": map[string]interface{}{"k": float64(1)}}
 			var doc interface{} = row
@@ -456,5 +482,38 @@ func c10(r *mon.Run) {
 				t.NontrivialDistinct(1)
 			}
 		}}
-	r.Exec(exh, by, many, rnd, sizedWorkload(r, "sized-arrays-ill-typed", true), nj, erw, oddw, inctx, latew)
+	// names that are not functions but nearly are: every proper prefix of every built-in name, every name extended by
+	// one character, other capitalisation, separators swapped - called with arguments the near neighbour would accept
+	seenName := map[string]bool{}
+	var nearNames []string
+	addName := func(n string) {
+		if _, isFn := ref.Signatures[n]; !isFn && n != "" && !seenName[n] && gen.IsUnquotedIdent(n) {
+			seenName[n] = true
+			nearNames = append(nearNames, n)
+		}
+	}
+	for _, f := range ref.FunctionNames() {
+		for k := 1; k < len(f); k++ {
+			addName(f[:k])
+		}
+		for _, ext := range []string{"_", "s", "0", "_by", "x"} {
+			addName(f + ext)
+		}
+		addName(strings.ToUpper(f[:1]) + f[1:])
+		addName(strings.ToUpper(f))
+		addName(strings.ReplaceAll(f, "_", ""))
+		addName("_" + f)
+	}
+	nearArgs := [][]*gen.Expr{{gen.Field("n")}, {gen.Field("s")}, {gen.Field("a")}, {gen.Field("o")}, {gen.Field("a"), gen.ExpRef(gen.Current())}, {gen.ExpRef(gen.Current()), gen.Field("a")}, {gen.Field("s"), gen.Field("s")}, {gen.Field("a"), gen.Field("n")}, {}, {gen.Field("o"), gen.Field("o")}}
+	nearw := mon.Workload{Name: "near-miss-function-names", N: len(nearNames) * len(nearArgs),
+		Do: func(i int, t *mon.Tally) {
+			tree := gen.Func(nearNames[i/len(nearArgs)], nearArgs[i%len(nearArgs)]...)
+			doc := map[string]interface{}{"n": float64(-2), "s": "str", "a": []interface{}{float64(2), float64(1)}, "o": map[string]interface{}{"k": float64(1)}}
+			cx := &caseCtx{r, t, "near-miss-function-names", i}
+			res, _, _ := cx.runOne(tree, gen.SpellTight(tree), doc)
+			if isErr(res) {
+				t.NontrivialDistinct(1)
+			}
+		}}
+	r.Exec(exh, by, many, rnd, sizedWorkload(r, "sized-arrays-ill-typed", true), nj, erw, oddw, inctx, latew, nearw)
 }
